@@ -88,7 +88,7 @@ def _graph():
 
 # =============================================================================== liveness (backward)
 def h_liveness_step(u0: bool, u1: bool, a0: bool, a1: bool, c0: bool, c1: bool,
-                    n00: bool, n01: bool, n10: bool, n11: bool, n20: bool, n21: bool,
+                    n00: bool, n01: bool, n10: bool, n11: bool, n20: bool, n21: bool, n30: bool, n31: bool,
                     inq: bool) -> bool:
     """
     post: _
@@ -113,7 +113,7 @@ def h_liveness_step(u0: bool, u1: bool, a0: bool, a1: bool, c0: bool, c1: bool,
     used, assigned = mkset([u0, u1]), mkset([a0, a1])
     stats[bb] = VariableStats(assigned=mkdict([a0, a1], None), used=mkdict([u0, u1], None))
     an = A.LivenessAnalysis(stats, initial={}, include_unreachable=INCL)
-    nbits = [[n00, n01], [n10, n11], [n20, n21]]
+    nbits = [[n00, n01], [n10, n11], [n20, n21], [n30, n31]]
     vals = {b: {} for b in blocks}
     vals[bb] = mkdict([c0, c1], bb)
     neigh = list(succs) + ([dsucc] if DUMMY else [])
@@ -146,6 +146,7 @@ def h_assignment_step(a0: bool, a1: bool, e0: bool, e1: bool,
                       pd00: bool, pd01: bool, pm00: bool, pm01: bool,
                       pd10: bool, pd11: bool, pm10: bool, pm11: bool,
                       pd20: bool, pd21: bool, pm20: bool, pm21: bool,
+                      pd30: bool, pd31: bool, pm30: bool, pm31: bool,
                       inq: bool) -> bool:
     """
     post: _
@@ -173,7 +174,7 @@ def h_assignment_step(a0: bool, a1: bool, e0: bool, e1: bool,
     stats[succ] = VariableStats(assigned={v: None for v in VARS})
     entry = mkset([e0, e1])
     an = _assignment_analysis(stats, entry, INCL)
-    pbits = [([pd00, pd01], [pm00, pm01]), ([pd10, pd11], [pm10, pm11]), ([pd20, pd21], [pm20, pm21])]
+    pbits = [([pd00, pd01], [pm00, pm01]), ([pd10, pd11], [pm10, pm11]), ([pd20, pd21], [pm20, pm21]), ([pd30, pd31], [pm30, pm31])]
     neigh = list(preds) + ([dpred] if DUMMY else [])
     after = {b: ({*VARS}, {*()}) for b in blocks}
     before = {b: ({*VARS}, {*()}) for b in blocks}
